@@ -6,6 +6,10 @@
 //! edit that does not belong to the edited key/section must still be there, in order, in the text after the edit.
 //! G - `git config -z --list` reads the starting text (must agree with the model, else the history is not judged: that
 //! is C27's subject) and the final text (must list the model).
+//! Part 2 (model-free, see "edit sequences on ONE in-memory file" below): after every step of a sequence of section renames,
+//! removals, additions and value edits the long-lived `File` must behave like a fresh parse of its own serialization
+//! (same lookups, same effect of the next edit), like git reads that serialization, and like the `git config --file`
+//! command of the same meaning edits it.
 use crate::c26::{feat_names, gen_config, GenOpts};
 use crate::c27::{git_list_batch, GitEntry};
 use crate::fw::{guard, show, Ctx, PanicInfo, Rng};
@@ -1037,6 +1041,1067 @@ fn run_history(ctx: &mut Ctx, r: &mut Rng, original: &[u8], baseline: &[GitEntry
     Some((text, model))
 }
 
+// ================================================================== part 2: edit sequences on ONE in-memory file
+//
+// The histories above judge every edit against a hand-written model. This part is model-free and directed at what a
+// long-lived in-memory `File` can get wrong: its lookup structures (name -> section ids, section order) are updated
+// incrementally by rename/remove/new section, while a freshly parsed file builds them from scratch. After EVERY step:
+//  S1 edit(memory) vs edit(reparse): the same call on the long-lived file and on a fresh parse of its previous
+//     serialization must report the same result and leave the same sections, keys and values;
+//  S2 `sections()` of the long-lived file must be what its serialization reads back as;
+//  S3 every read-only and mutable lookup (section, section_mut, sections_by_name, raw_value(_mut), raw_values(_mut),
+//     num_values) on the long-lived file must answer like a fresh parse of its serialization, for every header and key
+//     that is or was in the file;
+//  S4 git's view: `git config --list` of the serialization must list, for every such key, the values `raw_values_by`
+//     gives in memory (and `raw_value_by` the last of them);
+//  S5 git-equivalent: where `git config --file` has a command with the same documented meaning (rename-section,
+//     remove-section, set, --add, --unset, --unset-all), git applied to the previous serialization must list the same as
+//     the serialization of the edited in-memory file.
+
+type Hdr = (String, Option<Vec<u8>>);
+
+const SEQ_NAMES: &[&str] = &["a", "b", "remote", "A", "x1"];
+const SEQ_SUBS: &[&[u8]] = &[b"x", b"y", b"X", b"origin", b"o r", b"a.b", b"q\"uote", b"back\\slash", b""];
+const SEQ_KEYS: &[&str] = &["k", "url", "n"];
+
+#[derive(Clone, Debug)]
+enum SeqOp {
+    Rename { old: Hdr, new: Hdr, filter: bool },
+    /// rename_section() until no section of the old name is left: what `git config --rename-section` does
+    RenameAll { old: Hdr, new: Hdr },
+    Remove { hdr: Hdr, filter: bool },
+    /// remove_section() until none is left: what `git config --remove-section` does
+    RemoveAll { hdr: Hdr },
+    NewSection { hdr: Hdr, pushes: Vec<(String, Vec<u8>)> },
+    Set { hdr: Hdr, key: String, val: Vec<u8> },
+    SetExisting { hdr: Hdr, key: String, val: Vec<u8> },
+    /// section_mut_or_create_new().push(): what `git config --add` does
+    Add { hdr: Hdr, key: String, val: Vec<u8> },
+    SecPush { hdr: Hdr, key: String, val: Vec<u8> },
+    SecSet { hdr: Hdr, key: String, val: Vec<u8> },
+    SecRemove { hdr: Hdr, key: String },
+    Unset { hdr: Hdr, key: String },
+    UnsetAll { hdr: Hdr, key: String },
+}
+
+impl SeqOp {
+    fn kind(&self) -> &'static str {
+        match self {
+            SeqOp::Rename { filter: false, .. } => "rename_section",
+            SeqOp::Rename { filter: true, .. } => "rename_section_filter",
+            SeqOp::RenameAll { .. } => "rename_section-all",
+            SeqOp::Remove { filter: false, .. } => "remove_section",
+            SeqOp::Remove { filter: true, .. } => "remove_section_filter",
+            SeqOp::RemoveAll { .. } => "remove_section-all",
+            SeqOp::NewSection { .. } => "new_section",
+            SeqOp::Set { .. } => "set_raw_value",
+            SeqOp::SetExisting { .. } => "set_existing_raw_value",
+            SeqOp::Add { .. } => "section_mut_or_create_new.push",
+            SeqOp::SecPush { .. } => "section_mut.push",
+            SeqOp::SecSet { .. } => "section_mut.set",
+            SeqOp::SecRemove { .. } => "section_mut.remove",
+            SeqOp::Unset { .. } => "raw_value_mut.delete",
+            SeqOp::UnsetAll { .. } => "raw_values_mut.delete_all",
+        }
+    }
+    fn headers(&self) -> Vec<&Hdr> {
+        match self {
+            SeqOp::Rename { old, new, .. } | SeqOp::RenameAll { old, new } => vec![old, new],
+            SeqOp::Remove { hdr, .. }
+            | SeqOp::RemoveAll { hdr }
+            | SeqOp::NewSection { hdr, .. }
+            | SeqOp::Set { hdr, .. }
+            | SeqOp::SetExisting { hdr, .. }
+            | SeqOp::Add { hdr, .. }
+            | SeqOp::SecPush { hdr, .. }
+            | SeqOp::SecSet { hdr, .. }
+            | SeqOp::SecRemove { hdr, .. }
+            | SeqOp::Unset { hdr, .. }
+            | SeqOp::UnsetAll { hdr, .. } => vec![hdr],
+        }
+    }
+    fn keys(&self) -> Vec<&String> {
+        match self {
+            SeqOp::NewSection { pushes, .. } => pushes.iter().map(|(k, _)| k).collect(),
+            SeqOp::Set { key, .. }
+            | SeqOp::SetExisting { key, .. }
+            | SeqOp::Add { key, .. }
+            | SeqOp::SecPush { key, .. }
+            | SeqOp::SecSet { key, .. }
+            | SeqOp::SecRemove { key, .. }
+            | SeqOp::Unset { key, .. }
+            | SeqOp::UnsetAll { key, .. } => vec![key],
+            _ => Vec::new(),
+        }
+    }
+}
+
+fn header_line(name: &str, sub: Option<&[u8]>) -> Vec<u8> {
+    let mut o = vec![b'['];
+    o.extend_from_slice(name.as_bytes());
+    if let Some(s) = sub {
+        o.extend_from_slice(b" \"");
+        for c in s {
+            if *c == b'"' || *c == b'\\' {
+                o.push(b'\\');
+            }
+            o.push(*c);
+        }
+        o.push(b'"');
+    }
+    o.push(b']');
+    o
+}
+
+fn pool_header(r: &mut Rng, local: &[Hdr]) -> Hdr {
+    if !local.is_empty() && r.chance(3, 4) {
+        r.pick(local).clone()
+    } else {
+        let name = (*r.pick(SEQ_NAMES)).to_string();
+        let sub = if r.chance(3, 5) { Some(r.pick(SEQ_SUBS).to_vec()) } else { None };
+        (name, sub)
+    }
+}
+
+fn existing_header(r: &mut Rng, view: &[MSec], local: &[Hdr]) -> Hdr {
+    if !view.is_empty() && r.chance(9, 10) {
+        let s = &view[r.usize(view.len())];
+        // mostly as spelled in the file: git's rename-section/remove-section only find that spelling
+        let name = if r.chance(1, 3) { vary_case(r, &s.name) } else { String::from_utf8_lossy(&s.name).into_owned() };
+        (name, s.sub.clone())
+    } else {
+        pool_header(r, local)
+    }
+}
+
+/// a small clean file: few distinct headers, many of them repeated, every value unique
+fn gen_seq_start(r: &mut Rng, local: &[Hdr]) -> Vec<u8> {
+    let mut t: Vec<u8> = Vec::new();
+    if r.chance(1, 4) {
+        t.extend_from_slice(b"# top\n");
+    }
+    let n = 2 + r.usize(5);
+    let mut c = 0;
+    for _ in 0..n {
+        let (name, sub) = r.pick(local).clone();
+        let name = if r.chance(1, 4) { vary_case(r, name.as_bytes()) } else { name };
+        t.extend_from_slice(&header_line(&name, sub.as_deref()));
+        t.push(b'\n');
+        for _ in 0..r.usize(4) {
+            c += 1;
+            if r.chance(1, 8) {
+                t.extend_from_slice(format!("\t# c{c}\n").as_bytes());
+            } else {
+                let key: &str = *r.pick(SEQ_KEYS);
+                let key = vary_case(r, key.as_bytes());
+                t.extend_from_slice(format!("\t{key} = v{c}\n").as_bytes());
+            }
+        }
+        if r.chance(1, 8) {
+            t.push(b'\n');
+        }
+    }
+    if r.chance(1, 8) {
+        while t.last() == Some(&b'\n') {
+            t.pop();
+        }
+    }
+    t
+}
+
+fn gen_seq_op(r: &mut Rng, view: &[MSec], local: &[Hdr], counter: &mut u32) -> SeqOp {
+    let hdr = existing_header(r, view, local);
+    let keys: Vec<&Vec<u8>> = view.iter().filter(|s| sec_matches(s, hdr.0.as_bytes(), hdr.1.as_deref())).flat_map(|s| s.kvs.iter().map(|kv| &kv.key)).collect();
+    let key = if !keys.is_empty() && r.chance(3, 4) {
+        let k = keys[r.usize(keys.len())];
+        vary_case(r, k)
+    } else if r.chance(3, 4) {
+        (*r.pick(SEQ_KEYS)).to_string()
+    } else {
+        (*r.pick(NEW_KEYS)).to_string()
+    };
+    *counter += 1;
+    let val: Vec<u8> = if r.chance(2, 3) { format!("w{counter}").into_bytes() } else { r.pick(NEW_VALUES).to_vec() };
+    match r.below(100) {
+        0..=27 => {
+            let new: Hdr = match r.below(20) {
+                0..=7 if !view.is_empty() => {
+                    // onto the header of a section that is in the file: earlier, later or the renamed one itself
+                    let s = &view[r.usize(view.len())];
+                    (vary_case(r, &s.name), s.sub.clone())
+                }
+                0..=14 => pool_header(r, local),
+                15..=17 => pool_header(r, &[]),
+                18 => ((*r.pick(BAD_SECTIONS)).to_string(), if r.bool() { Some(r.pick(SEQ_SUBS).to_vec()) } else { None }),
+                _ => ((*r.pick(SEQ_NAMES)).to_string(), Some(r.pick(BAD_SUBS).to_vec())),
+            };
+            if r.chance(1, 5) {
+                SeqOp::RenameAll { old: hdr, new }
+            } else {
+                SeqOp::Rename { old: hdr, new, filter: r.chance(1, 4) }
+            }
+        }
+        28..=35 => SeqOp::Remove { hdr, filter: r.chance(1, 4) },
+        36..=38 => SeqOp::RemoveAll { hdr },
+        39..=46 => {
+            let hdr = if r.chance(1, 2) { hdr } else { pool_header(r, local) };
+            let n = r.usize(3);
+            let pushes = (0..n)
+                .map(|_| {
+                    *counter += 1;
+                    ((*r.pick(SEQ_KEYS)).to_string(), format!("w{counter}").into_bytes())
+                })
+                .collect();
+            SeqOp::NewSection { hdr, pushes }
+        }
+        47..=60 => SeqOp::Set { hdr, key, val },
+        61..=65 => SeqOp::SetExisting { hdr, key, val },
+        66..=73 => SeqOp::Add { hdr, key, val },
+        74..=78 => SeqOp::SecPush { hdr, key, val },
+        79..=83 => SeqOp::SecSet { hdr, key, val },
+        84..=87 => SeqOp::SecRemove { hdr, key },
+        88..=93 => SeqOp::Unset { hdr, key },
+        94..=96 => SeqOp::UnsetAll { hdr, key },
+        _ => SeqOp::Set { hdr, key, val },
+    }
+}
+
+/// (sections with that header, occurrences of the key in them, occurrences in the last of them)
+fn occurrences(view: &[MSec], hdr: &Hdr, key: &str) -> (usize, usize, usize) {
+    let secs: Vec<&MSec> = view.iter().filter(|s| sec_matches(s, hdr.0.as_bytes(), hdr.1.as_deref())).collect();
+    let occ_in = |s: &MSec| s.kvs.iter().filter(|kv| kv.key.eq_ignore_ascii_case(key.as_bytes())).count();
+    let occ = secs.iter().map(|s| occ_in(s)).sum();
+    let occ_last = secs.last().map_or(0, |s| occ_in(s));
+    (secs.len(), occ, occ_last)
+}
+
+fn valid_header(h: &Hdr) -> bool {
+    !h.0.is_empty() && valid_section_name(h.0.as_bytes()) && h.1.as_deref().map_or(true, valid_subsection)
+}
+
+/// class of what the step meets in the file as it is before the step (for signatures and distinctness)
+fn seq_class(op: &SeqOp, view: &[MSec]) -> String {
+    let key_class = |hdr: &Hdr, key: &str| -> String {
+        let (nsec, occ, occ_last) = occurrences(view, hdr, key);
+        if nsec == 0 {
+            return if valid_header(hdr) { "no-section".into() } else { "invalid-header".into() };
+        }
+        let base = match (occ, occ_last) {
+            (0, _) => "new-key",
+            (1, 1) => "single-in-last",
+            (1, _) => "single-in-earlier",
+            _ => "multi",
+        };
+        if nsec > 1 {
+            format!("dupsec-{base}")
+        } else {
+            base.to_string()
+        }
+    };
+    match op {
+        SeqOp::Rename { old, new, .. } | SeqOp::RenameAll { old, new } => {
+            let Some(si) = last_section(view, old.0.as_bytes(), old.1.as_deref()) else { return "missing".into() };
+            if !valid_header(new) {
+                return "invalid-header".into();
+            }
+            let hits = |s: &MSec| sec_matches(s, new.0.as_bytes(), new.1.as_deref());
+            let earlier = view[..si].iter().any(hits);
+            let later = view[si + 1..].iter().any(hits);
+            let onto = if hits(&view[si]) {
+                "same"
+            } else {
+                match (earlier, later) {
+                    (false, false) => "unused",
+                    (true, false) => "earlier",
+                    (false, true) => "later",
+                    (true, true) => "earlier+later",
+                }
+            };
+            let mut c = format!("{}-onto-{onto}", if new.1.is_some() { "sub" } else { "nosub" });
+            if matches!(op, SeqOp::RenameAll { .. }) {
+                let n = view.iter().filter(|s| sec_matches(s, old.0.as_bytes(), old.1.as_deref())).count();
+                c.push_str(if n > 1 { "-many" } else { "-one" });
+            }
+            c
+        }
+        SeqOp::Remove { hdr, .. } | SeqOp::RemoveAll { hdr } => match view.iter().filter(|s| sec_matches(s, hdr.0.as_bytes(), hdr.1.as_deref())).count() {
+            0 => "missing".into(),
+            1 => "single-section".into(),
+            _ => "duplicate-section".into(),
+        },
+        SeqOp::NewSection { hdr, .. } => {
+            if !valid_header(hdr) {
+                "invalid-header".into()
+            } else if last_section(view, hdr.0.as_bytes(), hdr.1.as_deref()).is_some() {
+                "duplicate-header".into()
+            } else {
+                "fresh-header".into()
+            }
+        }
+        SeqOp::Set { hdr, key, .. }
+        | SeqOp::SetExisting { hdr, key, .. }
+        | SeqOp::Add { hdr, key, .. }
+        | SeqOp::SecPush { hdr, key, .. }
+        | SeqOp::SecSet { hdr, key, .. }
+        | SeqOp::SecRemove { hdr, key }
+        | SeqOp::Unset { hdr, key }
+        | SeqOp::UnsetAll { hdr, key } => key_class(hdr, key),
+    }
+}
+
+fn cow_sub(s: &Option<Vec<u8>>) -> Option<Cow<'static, BStr>> {
+    s.clone().map(|s| Cow::Owned(BString::from(s)))
+}
+
+fn header_is(h: &gix_config::parse::section::Header<'_>, hdr: &Hdr) -> bool {
+    h.name().eq_ignore_ascii_case(hdr.0.as_bytes()) && h.subsection_name().map(|s| s.as_bytes()) == hdr.1.as_deref()
+}
+
+/// Run the step on a `File`. Ok(true) = the API reported success (for the -all steps: at least once).
+fn seq_apply(file: &mut gix_config::File<'static>, op: &SeqOp) -> Result<bool, PanicInfo> {
+    guard(|| match op {
+        SeqOp::Rename { old, new, filter: false } => file.rename_section(old.0.as_str(), opt_bstr(&old.1), new.0.clone(), cow_sub(&new.1)).is_ok(),
+        SeqOp::Rename { old, new, filter: true } => file.rename_section_filter(old.0.as_str(), opt_bstr(&old.1), new.0.clone(), cow_sub(&new.1), &mut |_| true).is_ok(),
+        SeqOp::RenameAll { old, new } => {
+            let limit = file.sections().filter(|s| header_is(s.header(), old)).count();
+            let mut n = 0;
+            while n < limit && file.rename_section(old.0.as_str(), opt_bstr(&old.1), new.0.clone(), cow_sub(&new.1)).is_ok() {
+                n += 1;
+            }
+            n > 0
+        }
+        SeqOp::Remove { hdr, filter: false } => file.remove_section(hdr.0.as_str(), opt_bstr(&hdr.1)).is_some(),
+        SeqOp::Remove { hdr, filter: true } => file.remove_section_filter(hdr.0.as_str(), opt_bstr(&hdr.1), &mut |_| true).is_some(),
+        SeqOp::RemoveAll { hdr } => {
+            let limit = file.sections().count();
+            let mut n = 0;
+            while n < limit && file.remove_section(hdr.0.as_str(), opt_bstr(&hdr.1)).is_some() {
+                n += 1;
+            }
+            n > 0
+        }
+        SeqOp::NewSection { hdr, pushes } => match file.new_section(hdr.0.clone(), cow_sub(&hdr.1)) {
+            Ok(mut s) => {
+                for (k, v) in pushes {
+                    if let Ok(k) = ValueName::try_from(k.clone()) {
+                        s.push(k, Some(v.as_bstr()));
+                    }
+                }
+                true
+            }
+            Err(_) => false,
+        },
+        SeqOp::Set { hdr, key, val } => file.set_raw_value_by(hdr.0.as_str(), opt_bstr(&hdr.1), key.clone(), val.as_bstr()).is_ok(),
+        SeqOp::SetExisting { hdr, key, val } => file.set_existing_raw_value_by(hdr.0.as_str(), opt_bstr(&hdr.1), key.as_str(), val.as_bstr()).is_ok(),
+        SeqOp::Add { hdr, key, val } => match file.section_mut_or_create_new(hdr.0.as_str(), opt_bstr(&hdr.1)) {
+            Ok(mut s) => match ValueName::try_from(key.clone()) {
+                Ok(k) => {
+                    s.push(k, Some(val.as_bstr()));
+                    true
+                }
+                Err(_) => false,
+            },
+            Err(_) => false,
+        },
+        SeqOp::SecPush { hdr, key, val } => match file.section_mut(hdr.0.as_str(), opt_bstr(&hdr.1)) {
+            Ok(mut s) => match ValueName::try_from(key.clone()) {
+                Ok(k) => {
+                    s.push(k, Some(val.as_bstr()));
+                    true
+                }
+                Err(_) => false,
+            },
+            Err(_) => false,
+        },
+        SeqOp::SecSet { hdr, key, val } => match file.section_mut(hdr.0.as_str(), opt_bstr(&hdr.1)) {
+            Ok(mut s) => match ValueName::try_from(key.clone()) {
+                Ok(k) => {
+                    s.set(k, val.as_bstr());
+                    true
+                }
+                Err(_) => false,
+            },
+            Err(_) => false,
+        },
+        SeqOp::SecRemove { hdr, key } => match file.section_mut(hdr.0.as_str(), opt_bstr(&hdr.1)) {
+            Ok(mut s) => s.remove(key.as_str()).is_some(),
+            Err(_) => false,
+        },
+        SeqOp::Unset { hdr, key } => match file.raw_value_mut_by(hdr.0.as_str(), opt_bstr(&hdr.1), key.as_str()) {
+            Ok(mut v) => {
+                v.delete();
+                true
+            }
+            Err(_) => false,
+        },
+        SeqOp::UnsetAll { hdr, key } => match file.raw_values_mut_by(hdr.0.as_str(), opt_bstr(&hdr.1), key.as_str()) {
+            Ok(mut v) => {
+                v.delete_all();
+                true
+            }
+            Err(_) => false,
+        },
+    })
+}
+
+fn parse_owned(text: &[u8]) -> Result<gix_config::File<'static>, String> {
+    let ev = Events::from_bytes_owned(text, None).map_err(|e| e.to_string())?;
+    Ok(gix_config::File::from_parse_events_no_includes(ev, gix_config::file::Metadata::api()))
+}
+
+#[derive(Clone, PartialEq, Eq, Debug)]
+struct SecSnap {
+    name: Vec<u8>,
+    sub: Option<Vec<u8>>,
+    kvs: Vec<(Vec<u8>, Vec<u8>)>,
+}
+
+fn snap(s: &gix_config::file::Section<'_>) -> SecSnap {
+    SecSnap {
+        name: s.header().name().to_vec(),
+        sub: s.header().subsection_name().map(|n| n.to_vec()),
+        kvs: s.body().clone().into_iter().map(|(k, v)| (k.as_ref().as_bytes().to_vec(), v.to_vec())).collect(),
+    }
+}
+
+fn show_snap(s: &SecSnap) -> String {
+    format!(
+        "{} {{{}}}",
+        show(&header_line(&String::from_utf8_lossy(&s.name), s.sub.as_deref())),
+        s.kvs.iter().map(|(k, v)| format!("{}={}", show(k), show(v))).collect::<Vec<_>>().join(", ")
+    )
+}
+
+type ProbeHdr = (Vec<u8>, Option<Vec<u8>>);
+
+/// what every lookup API answers, for fixed lists of headers, names and keys
+#[derive(Clone, PartialEq, Eq, Debug, Default)]
+struct Lookups {
+    sections: Vec<SecSnap>,
+    num_values: usize,
+    section: Vec<Option<SecSnap>>,
+    section_mut: Vec<Option<SecSnap>>,
+    /// `None` (name never seen) and `Some(nothing)` (all sections of the name removed or renamed) both mean: no section
+    by_name: Vec<Vec<SecSnap>>,
+    by_name_some_empty: usize,
+    raw_value: Vec<Option<Vec<u8>>>,
+    raw_values: Vec<Vec<Vec<u8>>>,
+    raw_value_mut: Vec<Option<(Vec<u8>, SecSnap)>>,
+    raw_values_mut: Vec<Option<Vec<Vec<u8>>>>,
+}
+
+fn collect_lookups(file: &mut gix_config::File<'static>, hdrs: &[ProbeHdr], names: &[Vec<u8>], keys: &[Vec<u8>]) -> Lookups {
+    let mut l = Lookups { sections: file.sections().map(snap).collect(), num_values: file.num_values(), ..Default::default() };
+    for name in names {
+        let name = String::from_utf8_lossy(name).into_owned();
+        let found: Option<Vec<SecSnap>> = file.sections_by_name(&name).map(|it| it.map(snap).collect());
+        if found.as_ref().map_or(false, |v| v.is_empty()) {
+            l.by_name_some_empty += 1;
+        }
+        l.by_name.push(found.unwrap_or_default());
+    }
+    for (name, sub) in hdrs {
+        let name = String::from_utf8_lossy(name).into_owned();
+        let sub = sub.as_ref().map(|s| s.as_bstr());
+        l.section.push(file.section(&name, sub).ok().map(snap));
+        l.section_mut.push(file.section_mut(name.as_str(), sub).ok().map(|s| snap(&s)));
+        for key in keys {
+            let key = String::from_utf8_lossy(key).into_owned();
+            l.raw_value.push(file.raw_value_by(name.as_str(), sub, key.as_str()).ok().map(|v| v.to_vec()));
+            l.raw_values.push(file.raw_values_by(name.as_str(), sub, key.as_str()).map(|v| v.into_iter().map(|c| c.to_vec()).collect()).unwrap_or_default());
+            l.raw_value_mut.push(file.raw_value_mut_by(name.as_str(), sub, key.as_str()).ok().and_then(|v| v.get().ok().map(|val| (val.to_vec(), snap(v.section())))));
+            l.raw_values_mut.push(file.raw_values_mut_by(name.as_str(), sub, key.as_str()).ok().and_then(|v| v.get().ok().map(|vals| vals.into_iter().map(|c| c.to_vec()).collect())));
+        }
+    }
+    l
+}
+
+/// the first lookup API whose answers differ, with the probe and both answers
+fn lookups_differ(mem: &Lookups, fresh: &Lookups, hdrs: &[ProbeHdr], names: &[Vec<u8>], keys: &[Vec<u8>]) -> Option<(&'static str, serde_json::Value)> {
+    let show_hdr = |h: &ProbeHdr| show(&header_line(&String::from_utf8_lossy(&h.0), h.1.as_deref()));
+    let show_sec = |s: &Option<SecSnap>| s.as_ref().map(show_snap);
+    let show_vals = |v: &[Vec<u8>]| v.iter().map(|x| show(x)).collect::<Vec<_>>();
+    if mem.sections != fresh.sections {
+        return Some(("sections", json!({"memory": mem.sections.iter().map(show_snap).collect::<Vec<_>>(), "reparsed": fresh.sections.iter().map(show_snap).collect::<Vec<_>>()})));
+    }
+    for (i, h) in hdrs.iter().enumerate() {
+        if mem.section[i] != fresh.section[i] {
+            return Some(("section", json!({"lookup": show_hdr(h), "memory": show_sec(&mem.section[i]), "reparsed": show_sec(&fresh.section[i])})));
+        }
+    }
+    for (i, h) in hdrs.iter().enumerate() {
+        if mem.section_mut[i] != fresh.section_mut[i] {
+            return Some(("section_mut", json!({"lookup": show_hdr(h), "memory": show_sec(&mem.section_mut[i]), "reparsed": show_sec(&fresh.section_mut[i])})));
+        }
+    }
+    for (i, n) in names.iter().enumerate() {
+        if mem.by_name[i] != fresh.by_name[i] {
+            let sh = |v: &Vec<SecSnap>| v.iter().map(show_snap).collect::<Vec<_>>();
+            return Some(("sections_by_name", json!({"lookup": show(n), "memory": sh(&mem.by_name[i]), "reparsed": sh(&fresh.by_name[i])})));
+        }
+    }
+    let mut i = 0;
+    let mut first: Option<(&'static str, serde_json::Value)> = None;
+    // in the order of how basic the API is, so that one defect keeps one signature
+    let mut rank = usize::MAX;
+    for h in hdrs {
+        for k in keys {
+            let probe = format!("{} {}", show_hdr(h), show(k));
+            if mem.raw_values[i] != fresh.raw_values[i] && rank > 0 {
+                rank = 0;
+                first = Some(("raw_values", json!({"lookup": probe, "memory": show_vals(&mem.raw_values[i]), "reparsed": show_vals(&fresh.raw_values[i])})));
+            }
+            if mem.raw_value[i] != fresh.raw_value[i] && rank > 1 {
+                rank = 1;
+                first = Some(("raw_value", json!({"lookup": probe, "memory": mem.raw_value[i].as_ref().map(|v| show(v)), "reparsed": fresh.raw_value[i].as_ref().map(|v| show(v))})));
+            }
+            if mem.raw_value_mut[i] != fresh.raw_value_mut[i] && rank > 2 {
+                rank = 2;
+                let sh = |v: &Option<(Vec<u8>, SecSnap)>| v.as_ref().map(|(v, s)| format!("{} in {}", show(v), show_snap(s)));
+                first = Some(("raw_value_mut", json!({"lookup": probe, "memory": sh(&mem.raw_value_mut[i]), "reparsed": sh(&fresh.raw_value_mut[i])})));
+            }
+            if mem.raw_values_mut[i] != fresh.raw_values_mut[i] && rank > 3 {
+                rank = 3;
+                let sh = |v: &Option<Vec<Vec<u8>>>| v.as_ref().map(|v| show_vals(v));
+                first = Some(("raw_values_mut", json!({"lookup": probe, "memory": sh(&mem.raw_values_mut[i]), "reparsed": sh(&fresh.raw_values_mut[i])})));
+            }
+            i += 1;
+        }
+    }
+    if first.is_some() {
+        return first;
+    }
+    if mem.num_values != fresh.num_values {
+        return Some(("num_values", json!({"memory": mem.num_values, "reparsed": fresh.num_values})));
+    }
+    None
+}
+
+enum GitEq {
+    /// no git command with the same meaning on this input (reason is counted)
+    No(&'static str),
+    /// git must list exactly the same afterwards
+    Full(&'static str, Vec<Vec<u8>>),
+    /// git edits another occurrence than the documented target of the gitoxide call, but the value every key
+    /// resolves to (the last one) must be the same
+    Effective(&'static str, Vec<Vec<u8>>),
+}
+
+/// `name[.sub]` as the git command line wants it; None if git's syntax cannot express it safely
+fn git_section_arg(h: &Hdr) -> Option<Vec<u8>> {
+    if !valid_header(h) {
+        return None;
+    }
+    let mut o = h.0.as_bytes().to_vec();
+    if let Some(s) = &h.1 {
+        if s.is_empty() || s.contains(&b'\n') {
+            return None;
+        }
+        o.push(b'.');
+        o.extend_from_slice(s);
+    }
+    Some(o)
+}
+
+fn git_key_arg(h: &Hdr, key: &str) -> Option<Vec<u8>> {
+    let k = key.as_bytes();
+    if k.is_empty() || !k[0].is_ascii_alphabetic() || !k.iter().all(|c| c.is_ascii_alphanumeric() || *c == b'-') {
+        return None;
+    }
+    let mut o = git_section_arg(h)?;
+    o.push(b'.');
+    o.extend_from_slice(k);
+    Some(o)
+}
+
+fn git_equivalent(op: &SeqOp, view: &[MSec]) -> GitEq {
+    let nsec = |h: &Hdr| view.iter().filter(|s| sec_matches(s, h.0.as_bytes(), h.1.as_deref())).count();
+    // `git config --rename-section/--remove-section` compare the section name with the header text byte by byte
+    // (section_name_match() in git's config.c), while reading and gitoxide ignore its case: only equal spellings coincide
+    let same_spelling = |h: &Hdr| view.iter().filter(|s| sec_matches(s, h.0.as_bytes(), h.1.as_deref())).all(|s| s.name == h.0.as_bytes());
+    let args = |a: &[&[u8]]| a.iter().map(|x| x.to_vec()).collect::<Vec<_>>();
+    match op {
+        SeqOp::Rename { old, new, .. } | SeqOp::RenameAll { old, new } => {
+            let (Some(o), Some(n)) = (git_section_arg(old), git_section_arg(new)) else { return GitEq::No("header-not-expressible") };
+            if !same_spelling(old) {
+                return GitEq::No("git-matches-header-case-sensitively");
+            }
+            match (nsec(old), matches!(op, SeqOp::RenameAll { .. })) {
+                (0, _) => GitEq::No("target-missing"),
+                (1, _) | (_, true) => GitEq::Full("rename-section", args(&[b"--rename-section", &o, &n])),
+                _ => GitEq::No("git-takes-all-duplicates"),
+            }
+        }
+        SeqOp::Remove { hdr, .. } | SeqOp::RemoveAll { hdr } => {
+            let Some(h) = git_section_arg(hdr) else { return GitEq::No("header-not-expressible") };
+            if !same_spelling(hdr) {
+                return GitEq::No("git-matches-header-case-sensitively");
+            }
+            match (nsec(hdr), matches!(op, SeqOp::RemoveAll { .. })) {
+                (0, _) => GitEq::No("target-missing"),
+                (1, _) | (_, true) => GitEq::Full("remove-section", args(&[b"--remove-section", &h])),
+                _ => GitEq::No("git-takes-all-duplicates"),
+            }
+        }
+        SeqOp::NewSection { .. } => GitEq::No("no-git-command"),
+        SeqOp::Set { hdr, key, val } | SeqOp::SecSet { hdr, key, val } => {
+            let Some(k) = git_key_arg(hdr, key) else { return GitEq::No("header-not-expressible") };
+            let (n, occ, occ_last) = occurrences(view, hdr, key);
+            if n == 0 && matches!(op, SeqOp::SecSet { .. }) {
+                return GitEq::No("target-missing");
+            }
+            match (occ, occ_last) {
+                (0, _) | (1, 1) => GitEq::Full("set", args(&[&k, val])),
+                (1, _) => GitEq::Effective("set", args(&[&k, val])),
+                _ => GitEq::No("git-refuses-multi-valued"),
+            }
+        }
+        SeqOp::SetExisting { hdr, key, val } => {
+            let Some(k) = git_key_arg(hdr, key) else { return GitEq::No("header-not-expressible") };
+            match occurrences(view, hdr, key).1 {
+                0 => GitEq::No("target-missing"),
+                1 => GitEq::Full("set", args(&[&k, val])),
+                _ => GitEq::No("git-refuses-multi-valued"),
+            }
+        }
+        SeqOp::Add { hdr, key, val } | SeqOp::SecPush { hdr, key, val } => {
+            let Some(k) = git_key_arg(hdr, key) else { return GitEq::No("header-not-expressible") };
+            if nsec(hdr) == 0 && matches!(op, SeqOp::SecPush { .. }) {
+                return GitEq::No("target-missing");
+            }
+            GitEq::Full("add", args(&[b"--add", &k, val]))
+        }
+        SeqOp::SecRemove { hdr, key } | SeqOp::Unset { hdr, key } => {
+            let Some(k) = git_key_arg(hdr, key) else { return GitEq::No("header-not-expressible") };
+            let (_, occ, occ_last) = occurrences(view, hdr, key);
+            match (occ, occ_last, matches!(op, SeqOp::Unset { .. })) {
+                (0, _, _) => GitEq::No("target-missing"),
+                (1, 1, _) | (1, _, true) => GitEq::Full("unset", args(&[b"--unset", &k])),
+                (1, _, false) => GitEq::No("key-not-in-last-section"),
+                _ => GitEq::No("git-refuses-multi-valued"),
+            }
+        }
+        SeqOp::UnsetAll { hdr, key } => {
+            let Some(k) = git_key_arg(hdr, key) else { return GitEq::No("header-not-expressible") };
+            match occurrences(view, hdr, key).1 {
+                0 => GitEq::No("target-missing"),
+                _ => GitEq::Full("unset-all", args(&[b"--unset-all", &k])),
+            }
+        }
+    }
+}
+
+/// what the in-memory file answered for one key right after a step
+struct KeyProbe {
+    name: Vec<u8>,
+    sub: Option<Vec<u8>>,
+    key: Vec<u8>,
+    values: Vec<Vec<u8>>,
+    last: Option<Vec<u8>>,
+}
+
+/// `git config --file <copy of the text before the step> <args>`
+struct GitJob {
+    cmd: &'static str,
+    args: Vec<Vec<u8>>,
+    /// compare the full listing, or only the value every key resolves to
+    full: bool,
+    /// where the text git left went (None: not run or git refused)
+    text_idx: Option<usize>,
+}
+
+/// one judged step, waiting for git's listing of the texts
+struct StepRec {
+    seq: usize,
+    step: usize,
+    kind: &'static str,
+    class: String,
+    t_before: usize,
+    t_after: usize,
+    git: Option<GitJob>,
+    probes: Vec<KeyProbe>,
+}
+
+struct SeqLog {
+    start: Vec<u8>,
+    ops: Vec<String>,
+}
+
+fn view_of_snaps(s: &[SecSnap]) -> Vec<MSec> {
+    s.iter().map(|s| MSec { name: s.name.clone(), sub: s.sub.clone(), kvs: s.kvs.iter().map(|(k, v)| MKv { key: k.clone(), val: Some(v.clone()) }).collect() }).collect()
+}
+
+/// one sequence of steps on one long-lived file; S1..S3 are judged here, S4/S5 need git and are recorded
+fn run_sequence(ctx: &mut Ctx, r: &mut Rng, seq: usize, start: &[u8], local: &[Hdr], s5_allowance: usize, texts: &mut Vec<Vec<u8>>, recs: &mut Vec<StepRec>, log: &mut SeqLog) {
+    let mut r5 = r.fork();
+    let mut s5_left = s5_allowance;
+    let (mut file, mut reparsed) = match (guard(|| parse_owned(start)), guard(|| parse_owned(start))) {
+        (Ok(Ok(a)), Ok(Ok(b))) => (a, b),
+        _ => {
+            ctx.count("seq_skipped_start_rejected");
+            return;
+        }
+    };
+    let mut text: Vec<u8> = match guard(|| file.to_bstring()) {
+        Ok(t) => t.into(),
+        Err(p) => {
+            ctx.panic_violation("File::to_bstring", &p, "seq-start", json!({"start": clip(start)}));
+            return;
+        }
+    };
+    let mut view = match flatten(&text) {
+        Ok(f) => read_back(&f),
+        Err(_) => {
+            ctx.count("seq_skipped_start_rejected");
+            return;
+        }
+    };
+    ctx.count("sequences");
+    texts.push(text.clone());
+    let mut t_idx = texts.len() - 1;
+    let mut seen_hdrs: Vec<ProbeHdr> = Vec::new();
+    let mut seen_keys: Vec<Vec<u8>> = Vec::new();
+    let mut counter = 0u32;
+    let n_steps = 2 + r.usize(7);
+    let mut prev: (&'static str, String) = ("start", String::new());
+    for step in 0..n_steps {
+        let op = gen_seq_op(r, &view, local, &mut counter);
+        let kind = op.kind();
+        let class = seq_class(&op, &view);
+        log.ops.push(format!("{op:?}"));
+        ctx.eval();
+        ctx.count(&format!("seq_{kind}"));
+        ctx.distinct(("seq", kind, class.clone()));
+        ctx.distinct(("seq-pair", prev.0, prev.1.clone(), kind, class.clone()));
+        let witness = |after: Option<&[u8]>, extra: serde_json::Value| {
+            json!({"start": clip(&log.start), "steps": log.ops.clone(), "failing_step": step, "text_before_step": clip(&text), "text_after_step": after.map(clip), "detail": extra})
+        };
+        // ---- S1: the same step on the long-lived file and on a fresh parse of its previous serialization
+        let ok_m = match seq_apply(&mut file, &op) {
+            Ok(b) => b,
+            Err(p) => {
+                ctx.panic_violation(&format!("sequence {kind}"), &p, &class, witness(None, json!(null)));
+                return;
+            }
+        };
+        let ok_p = match seq_apply(&mut reparsed, &op) {
+            Ok(b) => b,
+            Err(p) => {
+                ctx.panic_violation(&format!("sequence {kind} on reparsed"), &p, &class, witness(None, json!(null)));
+                return;
+            }
+        };
+        let (new_text, new_text_p): (Vec<u8>, Vec<u8>) = match (guard(|| file.to_bstring()), guard(|| reparsed.to_bstring())) {
+            (Ok(a), Ok(b)) => (a.into(), b.into()),
+            (Err(p), _) | (_, Err(p)) => {
+                ctx.panic_violation("File::to_bstring", &p, kind, witness(None, json!(null)));
+                return;
+            }
+        };
+        if ok_m != ok_p {
+            ctx.violation(
+                &format!("coherence|edit-memory-vs-reparse|result|{kind}|{class}"),
+                "the same edit call succeeds on the long-lived in-memory file and fails on a fresh parse of its serialization (or the reverse)",
+                witness(Some(&new_text), json!({"ok_in_memory": ok_m, "ok_on_reparsed": ok_p})),
+            );
+            return;
+        }
+        if !ok_m {
+            ctx.count("seq_steps_failing_as_expected");
+        }
+        let (new_view, new_view_p) = match (flatten(&new_text), flatten(&new_text_p)) {
+            (Ok(a), Ok(b)) => (read_back(&a), read_back(&b)),
+            (a, _) => {
+                ctx.violation(
+                    &format!("coherence|serialization-unparsable|{kind}|{class}"),
+                    "the serialized file does not parse after the step",
+                    witness(Some(&new_text), json!({"which": if a.is_err() { "long-lived file" } else { "reparsed file" }, "text_of_reparsed_after_step": clip(&new_text_p)})),
+                );
+                return;
+            }
+        };
+        if !same_model(&new_view, &new_view_p) {
+            ctx.violation(
+                &format!("coherence|edit-memory-vs-reparse|content|{kind}|{class}"),
+                "the same edit leaves different sections/values on the long-lived in-memory file than on a fresh parse of its serialization: the in-memory lookup picked another target than the file's text means",
+                witness(Some(&new_text), json!({"long_lived_file_after": show_model(&new_view), "reparsed_file_after": show_model(&new_view_p), "text_of_reparsed_after_step": clip(&new_text_p)})),
+            );
+            return;
+        }
+        if new_text != new_text_p {
+            ctx.count("seq_steps_bytes_differ_content_equal");
+            if ctx.counter("seq_steps_bytes_differ_content_equal") == 1 {
+                ctx.note("first_bytes_differ_content_equal", json!({"text_before_step": clip(&text), "step": format!("{op:?}"), "long_lived_file_after": clip(&new_text), "reparsed_file_after": clip(&new_text_p)}));
+            }
+        }
+        // ---- S2 + S3: every lookup on the long-lived file against a fresh parse of what it serializes to
+        for h in op.headers() {
+            let id = (h.0.as_bytes().to_ascii_lowercase(), h.1.clone());
+            if valid_header(h) && !seen_hdrs.contains(&id) {
+                seen_hdrs.push(id);
+            }
+        }
+        for s in view.iter().chain(new_view.iter()) {
+            let id = (s.name.to_ascii_lowercase(), s.sub.clone());
+            if !seen_hdrs.contains(&id) {
+                seen_hdrs.push(id);
+            }
+            for kv in &s.kvs {
+                let k = kv.key.to_ascii_lowercase();
+                if !seen_keys.contains(&k) {
+                    seen_keys.push(k);
+                }
+            }
+        }
+        for k in op.keys() {
+            let k = k.as_bytes().to_ascii_lowercase();
+            if !seen_keys.contains(&k) {
+                seen_keys.push(k);
+            }
+        }
+        let mut names: Vec<Vec<u8>> = Vec::new();
+        for (n, _) in &seen_hdrs {
+            if !names.contains(n) {
+                names.push(n.clone());
+            }
+        }
+        let mut fresh = match guard(|| parse_owned(&new_text)) {
+            Ok(Ok(f)) => f,
+            _ => {
+                ctx.inconclusive("a text that Events::from_bytes accepts is rejected by from_bytes_owned");
+                return;
+            }
+        };
+        let (lm, lf) = match (guard(|| collect_lookups(&mut file, &seen_hdrs, &names, &seen_keys)), guard(|| collect_lookups(&mut fresh, &seen_hdrs, &names, &seen_keys))) {
+            (Ok(a), Ok(b)) => (a, b),
+            (Err(p), _) => {
+                ctx.panic_violation(&format!("sequence lookups after {kind}"), &p, &class, witness(Some(&new_text), json!(null)));
+                return;
+            }
+            (_, Err(p)) => {
+                ctx.panic_violation(&format!("sequence lookups on reparsed after {kind}"), &p, &class, witness(Some(&new_text), json!(null)));
+                return;
+            }
+        };
+        ctx.count_n("seq_sections_by_name_some_but_empty_in_memory", lm.by_name_some_empty as u64);
+        ctx.count_n("seq_lookups_compared", (2 * seen_hdrs.len() + names.len() + 4 * seen_hdrs.len() * seen_keys.len() + 2) as u64);
+        if !same_model(&view_of_snaps(&lm.sections), &new_view) {
+            ctx.violation(
+                &format!("coherence|sections-vs-serialization|{kind}|{class}"),
+                "sections() of the long-lived file lists other sections/values than its own serialization reads back as",
+                witness(Some(&new_text), json!({"sections()": lm.sections.iter().map(show_snap).collect::<Vec<_>>(), "read_back": show_model(&new_view)})),
+            );
+            return;
+        }
+        if let Some((api, detail)) = lookups_differ(&lm, &lf, &seen_hdrs, &names, &seen_keys) {
+            ctx.violation(
+                &format!("coherence|memory-vs-reparse|{api}|{kind}|{class}"),
+                "after the step a lookup on the long-lived in-memory file answers differently than the same lookup on a fresh parse of its serialization",
+                witness(Some(&new_text), detail),
+            );
+            return;
+        }
+        // ---- S4/S5: recorded, judged when git has listed the texts
+        texts.push(new_text.clone());
+        let t_after = texts.len() - 1;
+        let mut probes = Vec::new();
+        let mut i = 0;
+        for (name, sub) in &seen_hdrs {
+            for key in &seen_keys {
+                probes.push(KeyProbe { name: name.clone(), sub: sub.clone(), key: key.clone(), values: lm.raw_values[i].clone(), last: lm.raw_value[i].clone() });
+                i += 1;
+            }
+        }
+        let mut git = None;
+        match git_equivalent(&op, &view) {
+            GitEq::No(reason) => ctx.count(&format!("seq_git_equivalent_none_{reason}")),
+            GitEq::Full(cmd, _) | GitEq::Effective(cmd, _) if !ok_m => {
+                // inside the domain the call has to work like the git command does
+                ctx.violation(
+                    &format!("git-equivalent|{cmd}|call-fails|{kind}|{class}"),
+                    "the edit call fails where the git command of the same meaning applies",
+                    witness(Some(&new_text), json!({"git_command": cmd})),
+                );
+                return;
+            }
+            eq @ (GitEq::Full(..) | GitEq::Effective(..)) => {
+                let (cmd, args, full) = match eq {
+                    GitEq::Full(c, a) => (c, a, true),
+                    GitEq::Effective(c, a) => (c, a, false),
+                    GitEq::No(_) => unreachable!(),
+                };
+                // every git edit is a process: a sequence may ask for `s5_allowance` of them, section commands first
+                let wanted = matches!(cmd, "rename-section" | "remove-section") || r5.chance(1, 3) || step + 1 == n_steps;
+                if s5_left > 0 && wanted {
+                    s5_left -= 1;
+                    git = Some(GitJob { cmd, args, full, text_idx: None });
+                } else {
+                    ctx.count("seq_git_equivalent_not_run_allowance");
+                }
+            }
+        }
+        recs.push(StepRec { seq, step, kind, class: class.clone(), t_before: t_idx, t_after, git, probes });
+        reparsed = fresh;
+        text = new_text;
+        view = new_view;
+        t_idx = t_after;
+        prev = (kind, class);
+    }
+    ctx.distinct(("seq-len", n_steps));
+}
+
+fn effective(listing: &[(Vec<u8>, Option<Vec<u8>>)]) -> std::collections::BTreeMap<Vec<u8>, Option<Vec<u8>>> {
+    listing.iter().cloned().collect()
+}
+
+fn show_listing(l: &[(Vec<u8>, Option<Vec<u8>>)]) -> Vec<String> {
+    l.iter().map(|(k, v)| format!("{}={}", show(k), v.as_ref().map_or("<implicit>".into(), |v| show(v)))).collect()
+}
+
+/// S4 and S5 for all recorded steps of a batch
+fn judge_with_git(ctx: &mut Ctx, dir: &std::path::Path, texts: &mut Vec<Vec<u8>>, recs: &mut [StepRec], logs: &[SeqLog]) {
+    use std::os::unix::ffi::OsStrExt;
+    // ---- the git edits, four at a time, each on its own copy g<j> of the text before the step
+    let jobs: Vec<(usize, Vec<std::ffi::OsString>, &Vec<u8>)> = recs
+        .iter()
+        .enumerate()
+        .filter_map(|(ri, rec)| {
+            rec.git.as_ref().map(|j| {
+                let mut argv: Vec<std::ffi::OsString> = vec!["config".into(), "--file".into(), format!("g{ri}").into()];
+                argv.extend(j.args.iter().map(|a| std::ffi::OsStr::from_bytes(a).to_os_string()));
+                (ri, argv, &texts[rec.t_before])
+            })
+        })
+        .collect();
+    // Ok(Some(text)) git edited, Ok(None) git refused (exit, stderr), Err tool failure
+    type JobOut = Result<Result<Vec<u8>, (Option<i32>, String)>, String>;
+    let run_job = |ri: usize, argv: &[std::ffi::OsString], before: &[u8]| -> JobOut {
+        let g = dir.join(format!("g{ri}"));
+        std::fs::write(&g, before).map_err(|_| "cannot write scratch file".to_string())?;
+        let o = crate::fw::git::run(dir, argv).map_err(|e| format!("git spawn failed: {e}"))?;
+        let res = if o.ok { Ok(std::fs::read(&g).map_err(|_| "cannot read scratch file".to_string())?) } else { Err((o.code, o.err_text())) };
+        let _ = std::fs::remove_file(&g);
+        Ok(res)
+    };
+    let mut outs: Vec<(usize, JobOut)> = std::thread::scope(|sc| {
+        let handles: Vec<_> = (0..4)
+            .map(|t| {
+                let jobs = &jobs;
+                let run_job = &run_job;
+                sc.spawn(move || jobs.iter().skip(t).step_by(4).map(|(ri, argv, before)| (*ri, run_job(*ri, argv, before))).collect::<Vec<_>>())
+            })
+            .collect();
+        handles.into_iter().flat_map(|h| h.join().unwrap_or_default()).collect()
+    });
+    if outs.len() != jobs.len() {
+        ctx.inconclusive("a git edit worker thread died");
+        return;
+    }
+    drop(jobs);
+    outs.sort_by_key(|(ri, _)| *ri);
+    for (ri, out) in outs {
+        ctx.count("seq_git_edit_calls");
+        let Some(job) = recs[ri].git.as_mut() else { continue };
+        match out {
+            Err(e) => {
+                ctx.inconclusive(&e);
+                return;
+            }
+            Ok(Err((code, stderr))) => {
+                let key = format!("seq_git_equivalent_git_refused_{}", job.cmd);
+                ctx.count(&key);
+                if ctx.counter(&key) == 1 {
+                    ctx.note(&format!("first_git_refusal_{}", job.cmd), json!({"text": clip(&texts[recs[ri].t_before]), "args": job.args.iter().map(|a| show(a)).collect::<Vec<_>>(), "exit": code, "stderr": stderr}));
+                }
+            }
+            Ok(Ok(t)) => {
+                texts.push(t);
+                job.text_idx = Some(texts.len() - 1);
+                ctx.count(&format!("seq_git_equivalent_{}{}", job.cmd, if job.full { "" } else { "_effective" }));
+            }
+        }
+    }
+    let texts: &[Vec<u8>] = texts;
+    let recs: &[StepRec] = recs;
+    let mut listed: Vec<Option<Vec<GitEntry>>> = Vec::with_capacity(texts.len());
+    for chunk in texts.chunks(400) {
+        for (i, t) in chunk.iter().enumerate() {
+            if std::fs::write(dir.join(format!("f{i}")), t).is_err() {
+                ctx.inconclusive("cannot write scratch file");
+                return;
+            }
+        }
+        let Some(l) = git_list_batch(ctx, dir, chunk.len()) else { return };
+        listed.extend(l);
+    }
+    let mut dead: HashSet<usize> = HashSet::new();
+    for rec in recs {
+        if dead.contains(&rec.seq) {
+            continue;
+        }
+        let log = &logs[rec.seq];
+        let kind = rec.kind;
+        let class = &rec.class;
+        let witness = |extra: serde_json::Value| {
+            json!({"start": clip(&log.start), "steps": log.ops[..=rec.step.min(log.ops.len() - 1)].to_vec(), "failing_step": rec.step, "text_before_step": clip(&texts[rec.t_before]), "text_after_step": clip(&texts[rec.t_after]), "detail": extra})
+        };
+        ctx.eval();
+        let Some(entries) = &listed[rec.t_after] else {
+            ctx.violation(&format!("coherence|git-rejects-serialization|{kind}|{class}"), "git rejects the serialized file after the step", witness(json!(null)));
+            dead.insert(rec.seq);
+            continue;
+        };
+        // ---- S4
+        let mut bad = None;
+        for p in &rec.probes {
+            let want: Vec<Vec<u8>> = entries
+                .iter()
+                .filter(|e| e.section == p.name && e.sub == p.sub && e.name == p.key)
+                .map(|e| e.value.clone().unwrap_or_default())
+                .collect();
+            ctx.count("seq_git_view_lookups");
+            if want != p.values {
+                bad = Some(("raw_values", p, want));
+                break;
+            }
+            if want.last() != p.last.as_ref() {
+                bad = Some(("raw_value", p, want));
+                break;
+            }
+        }
+        if let Some((api, p, want)) = bad {
+            ctx.violation(
+                &format!("coherence|memory-vs-git|{api}|{kind}|{class}"),
+                "after the step a lookup on the long-lived in-memory file answers differently than git reads its serialization",
+                witness(json!({"lookup": format!("{} {}", show(&header_line(&String::from_utf8_lossy(&p.name), p.sub.as_deref())), show(&p.key)),
+                    "git": want.iter().map(|v| show(v)).collect::<Vec<_>>(), "raw_values_by": p.values.iter().map(|v| show(v)).collect::<Vec<_>>(), "raw_value_by": p.last.as_ref().map(|v| show(v))})),
+            );
+            dead.insert(rec.seq);
+            continue;
+        }
+        // ---- S5
+        if let Some((gi, cmd, full)) = rec.git.as_ref().and_then(|j| j.text_idx.map(|t| (t, j.cmd, j.full))) {
+            let Some(gentries) = &listed[gi] else {
+                ctx.count("seq_git_equivalent_git_output_unreadable");
+                continue;
+            };
+            ctx.eval();
+            ctx.count("seq_git_equivalent_checks");
+            let ours = git_listing(entries);
+            let gits = git_listing(gentries);
+            let differs = if full { ours != gits } else { effective(&ours) != effective(&gits) };
+            if differs {
+                ctx.violation(
+                    &format!("git-equivalent|{cmd}|{}|{kind}|{class}", if full { "listing" } else { "effective-values" }),
+                    "the edit on the in-memory file does not have the effect of the git command of the same meaning applied to the same text",
+                    witness(json!({"git_command": cmd, "text_git_leaves": clip(&texts[gi]), "git_lists_for_ours": show_listing(&ours), "git_lists_for_its_own": show_listing(&gits)})),
+                );
+                dead.insert(rec.seq);
+            }
+        }
+    }
+}
+
 pub fn run(ctx: &mut Ctx) {
     ctx.rule(
         "case = a batch of edit histories; one history = a generated config file (grammar of C26, git-safe) + 1..15 random edits \
@@ -1044,9 +2109,72 @@ pub fn run(ctx: &mut Ctx) {
          section_mut push/set/remove, new_section(+push), remove_section(_filter), rename_section; names with case variations, \
          existing and missing targets, invalid names) checked after every edit against the multimap model (in memory, after \
          to_bstring+parse, event subsequence) and by git on the final text. distinct = (edit kind, class of the targeted \
-         value/section end [implicit, continuation, ends without newline, ...], expected ok) + (history length, kinds used)",
+         value/section end [implicit, continuation, ends without newline, ...], expected ok) + (history length, kinds used). \
+         Part 2 (sequences): a small clean file with few distinct headers, many repeated (with/without subsection, case variants of \
+         the name) + 2..8 steps on ONE long-lived File (rename_section(_filter) onto unused/same/earlier/later headers, rename/remove \
+         until none is left, remove_section(_filter), new_section, set/set_existing/add/section_mut push,set,remove/unset/unset-all); \
+         after every step: same step on a fresh parse of the previous serialization (result+content), sections() vs serialization, \
+         all lookups in memory vs fresh parse of the serialization, vs git's listing of it, and the git command of the same meaning \
+         (rename-section, remove-section, set, --add, --unset, --unset-all) on the same text. distinct there = (step kind, class of \
+         what it meets [sub/nosub-onto-unused/same/earlier/later, single/duplicate section, key new/single/multi, ...]) and pairs \
+         of consecutive (kind, class)",
     );
+    ctx.assume("git-equivalent: gitoxide edits the last matching section/occurrence, git refuses multi-valued keys and takes all sections of a name; the comparison is made only where both meanings coincide (counted otherwise)");
     ctx.assume("the model follows the documented API semantics: last matching section, last matching key, multi-values in file order, set() replaces the last occurrence or appends");
+    // ---- part 2 first (it is small and directed; the histories below take what is left of the budget)
+    let seq_dir = ctx.dir("c28seq");
+    let seq_batches = ctx.n(14, 200);
+    let seq_per_batch = 40usize;
+    let s5_allowance = ctx.n(2, 4) as usize;
+    let seq_budget_s = if ctx.quick() { 25.0 } else { 200.0 };
+    ctx.cases("sequences", seq_batches, |ctx, r| {
+        if ctx.elapsed() > seq_budget_s {
+            ctx.count("seq_budget_stops");
+            return;
+        }
+        // phase 1: the start files; git and gitoxide must read them alike
+        let mut starts: Vec<(Vec<u8>, Vec<Hdr>)> = Vec::new();
+        for i in 0..seq_per_batch {
+            let names: Vec<&str> = (0..2).map(|_| *r.pick(SEQ_NAMES)).collect();
+            let subs: Vec<&[u8]> = (0..2).map(|_| *r.pick(SEQ_SUBS)).collect();
+            let n_local = 2 + r.usize(3);
+            let local: Vec<Hdr> = (0..n_local).map(|_| ((*r.pick(&names)).to_string(), if r.chance(3, 5) { Some(r.pick(&subs).to_vec()) } else { None })).collect();
+            let start = gen_seq_start(r, &local);
+            if std::fs::write(seq_dir.join(format!("f{i}")), &start).is_err() {
+                ctx.inconclusive("cannot write scratch file");
+                return;
+            }
+            starts.push((start, local));
+        }
+        let Some(listed) = git_list_batch(ctx, &seq_dir, starts.len()) else { return };
+        // phase 2: the sequences; S1..S3 judged on the spot
+        let mut texts: Vec<Vec<u8>> = Vec::new();
+        let mut recs: Vec<StepRec> = Vec::new();
+        let mut logs: Vec<SeqLog> = Vec::new();
+        for (seq, ((start, local), entries)) in starts.iter().zip(&listed).enumerate() {
+            logs.push(SeqLog { start: start.clone(), ops: Vec::new() });
+            let mut sub = r.fork();
+            let agree = match (entries, flatten(start)) {
+                (Some(e), Ok(f)) => model_listing(&read_back(&f)) == git_listing(e),
+                _ => false,
+            };
+            if !agree {
+                ctx.count("seq_skipped_start_git_and_gitoxide_disagree");
+                continue;
+            }
+            let mut log = SeqLog { start: start.clone(), ops: Vec::new() };
+            run_sequence(ctx, &mut sub, seq, start, local, s5_allowance, &mut texts, &mut recs, &mut log);
+            if ctx.want_sample() {
+                ctx.sample(json!({"part": "sequence", "start": clip(start), "steps": log.ops}));
+            }
+            logs[seq] = log;
+        }
+        // phase 3: git lists every text of the batch in one go; S4/S5
+        judge_with_git(ctx, &seq_dir, &mut texts, &mut recs, &logs);
+    });
+    let seq_seconds = ctx.elapsed();
+    ctx.note("seq_part_seconds", json!((seq_seconds * 10.0).round() / 10.0));
+
     let dir = ctx.dir("c28");
     let batches = ctx.n(16, 400);
     let per_batch = 50usize;
